@@ -69,6 +69,10 @@ def validate_all(module, cfg, results, ev, pid, keep=(), xmx="3g", timeout=1500,
                 lines = open(tr).read().splitlines()
                 ctx = "invariant/property %s of the specification violated after trace line %d: %s" % (
                     r.violation, at, lines[at - 1][:500] if 0 < at <= len(lines) else "")
+            import re as _re2
+            mm = _re2.findall(r'<<"MISMATCH", "([^"]*)"', r.out)
+            if mm:
+                ctx = "[observation that differed: %s] " % ", ".join(sorted(set(mm))) + ctx
             open(os.path.join(d, "why.txt"), "w").write(ctx + "\n")
             viols.append({"replay": d, "msg": ctx, "kind": "rejected", "line": line, "trace": os.path.join(d, "trace.ndjson")})
     return viols, good
